@@ -46,12 +46,13 @@ for fp in sorted(glob.glob(os.path.join(ROOT, "notes", "automut", "C*.jsonl"))):
     last = {}
     for l in open(fp):
         o = json.loads(l)
+        if o.get("supersedes"):  # a re-run of a recorded survivor after the check was extended
+            last.pop(tuple(o["supersedes"]), None)
         last[(o["file"], o["start"], o["repl"])] = o  # a re-run of the same mutant supersedes
     am[pid] = list(last.values())
 triage = {}
-tp = os.path.join(ROOT, "notes", "automut", "triage.json")
-if os.path.exists(tp):
-    triage = json.load(open(tp))
+for tp in sorted(glob.glob(os.path.join(ROOT, "notes", "automut", "triage*.json"))):
+    triage.update(json.load(open(tp)))
 if am:
     out.append("\n#### Generic source-level mutants (`tools/automut.py`)\n\n")
     out.append(read("notes/design9-automut-intro.md"))
